@@ -144,6 +144,7 @@ ObsVerdict(s, c, o) ==
 ReadVerdict(e) ==
   IF e.op # "read" THEN "ok"
   ELSE IF Has(e, "v1") /\ e.v1 # e.v2 THEN "ReadStable"
+  ELSE IF Has(e, "xv") /\ e.v1 # e.xv THEN "ReadAgrees"       \* (where the harness has an independent answer: whatever was read earlier in the process)
   ELSE "ok"
 
 Judge(s, c, e) ==
